@@ -327,7 +327,7 @@ def ip_pool(ip, port, net=None):
     return pool
 
 
-ALPHABET = "0123456789*:./xX'abcdefABCDEF@ -\n\t\u0663\uff15"       # (line ends and digits of other scripts are not part of any notation)
+ALPHABET = "0123456789*:./xX'abcdefABCDEFgGzZ_^[`@ -\n\t\u0663\uff15"       # (line ends and digits of other scripts are not part of any notation)
 
 
 def main():
@@ -471,6 +471,9 @@ def main():
     seeds = ["5", "255", "1:5", "65534:255", "1:*", "*", "*:*", "1.2.3.4", "1.2.3.4:47809", "10.20.30.40/24", "1.2.3.4/8:1",
              "7:1.2.3.4", "7:1.2.3.4:5", "0x01", "0x0102", "X'0a0B'", "3:0x0102", "3:X'0102'", "01:02:03:04:05:06", "5@6",
              "1:5@1.2.3.4", "1:5@0x0102", "*@5", "1:*@5"]
+    for s in ["0x01GG", "5:0x02ZZ", "0xZZ", "5:*@0x01GG", "0x0_", "0x^1", "X'0G'", "7:X'ZZ'", "0x[1", "0x`a"]:
+        run.case(s)
+        check_string(run, s)         # near misses of the octet-string notations
     for s in seeds:
         run.case(s)
         check_string(run, s)
